@@ -7,6 +7,7 @@ import Driver.Json
 import Driver.CloudEvents
 import Driver.Encrypt
 import Driver.EncryptTree
+import Driver.EncryptTag
 open Driver
 
 def main (args : List String) : IO UInt32 := do
@@ -22,4 +23,5 @@ def main (args : List String) : IO UInt32 := do
   | ["ce"] => loop stdin stdout Driver.CloudEvents.stepLine (); return 0
   | ["encrypt"] => loop stdin stdout Driver.Encrypt.stepLine { wrapper := none, salt := none, info := none }; return 0
   | ["enctree"] => loop stdin stdout Driver.EncryptTree.stepLine (); return 0
+  | ["enctag"] => loop stdin stdout Driver.EncryptTag.stepLine (); return 0
   | _ => IO.eprintln "usage: evldriver <model>"; return 2
